@@ -15,6 +15,7 @@ import (
 	"strconv"
 	"strings"
 	"sync"
+	"syscall"
 	"time"
 
 	kv "github.com/XiXi-2024/xixi-kv"
@@ -547,7 +548,7 @@ func copyPrefix(src, dst string, n int64) error {
 	}
 	defer out.Close()
 	if n < 0 {
-		_, err = io.Copy(out, in)
+		err = copySparse(in, out)
 	} else {
 		_, err = io.CopyN(out, in, n)
 		if err == io.EOF {
@@ -555,6 +556,60 @@ func copyPrefix(src, dst string, n int64) error {
 		}
 	}
 	return err
+}
+
+// copySparse copies a whole file, skipping the holes of the source (memory-mapped engine files are extended
+// to 512 MiB without being written): the copy has the same size and content and stays sparse.
+func copySparse(in, out *os.File) error {
+	fi, err := in.Stat()
+	if err != nil {
+		return err
+	}
+	size := fi.Size()
+	const seekData, seekHole = 3, 4
+	buf := make([]byte, 1<<16)
+	for off := int64(0); off < size; {
+		d, err := in.Seek(off, seekData)
+		if err != nil {
+			if errors.Is(err, syscall.ENXIO) { // nothing but a hole up to the end
+				break
+			}
+			// the file system cannot report holes: plain copy of the rest
+			if _, err := in.Seek(off, io.SeekStart); err != nil {
+				return err
+			}
+			if _, err := out.Seek(off, io.SeekStart); err != nil {
+				return err
+			}
+			_, err = io.Copy(out, in)
+			return err
+		}
+		hEnd, err := in.Seek(d, seekHole)
+		if err != nil {
+			hEnd = size
+		}
+		for p := d; p < hEnd; {
+			m := int64(len(buf))
+			if hEnd-p < m {
+				m = hEnd - p
+			}
+			k, rerr := in.ReadAt(buf[:m], p)
+			if k > 0 {
+				if _, werr := out.WriteAt(buf[:k], p); werr != nil {
+					return werr
+				}
+				p += int64(k)
+			}
+			if rerr != nil {
+				if rerr == io.EOF {
+					break
+				}
+				return rerr
+			}
+		}
+		off = hEnd
+	}
+	return out.Truncate(size)
 }
 
 // ScanFile reads every record of one data file with the package's own
